@@ -379,6 +379,10 @@ func checkC07(c *Ctx) {
 	for _, src := range interactionPrograms() {
 		add("interaction", src)
 	}
+	deepS, _ := deepRegisterSessions(int(c.Seed))
+	for _, in := range deepS { // many integer parameters x deep counted-loop nesting x every exit, as one program each
+		add("registers", strings.Join(in[:min(len(in), 6)], "\n"))
+	}
 	for _, n := range names {
 		if !strings.HasPrefix(n, "image.") {
 			continue
